@@ -248,4 +248,131 @@ theorem jState_inv {ex fwd : Bool} {noAct : Name → Bool} :
     show jStep (jState post) e = some l'
     rw [e1]; exact e2
 
+/-! ### `complete_run` -/
+
+theorem repOrd_at {a b : Bool} {f : Name → Bool} {pre post : List Ev} {e : Ev}
+    (h : repOrd a b f (pre ++ e :: post) = true) : repOK a b f e post = true := by
+  induction pre with
+  | nil => simp only [List.nil_append, repOrd, Bool.and_eq_true] at h; exact h.1
+  | cons x pre ih => simp only [List.cons_append, repOrd, Bool.and_eq_true] at h; exact ih h.2
+
+theorem filter_name_one : ∀ (doc : List JOut) (n : Name), (doc.map (·.name)).Nodup → (∃ o ∈ doc, o.name = n) →
+    (doc.filter fun o => o.name == n).length = 1
+  | [], _, _, h => by obtain ⟨o, ho, _⟩ := h; cases ho
+  | a :: doc, n, hnd, h => by
+    have hnd' : a.name ∉ doc.map (·.name) ∧ (doc.map (·.name)).Nodup := by
+      simpa [List.nodup_cons] using hnd
+    by_cases ha : a.name = n
+    · have : doc.filter (fun o => o.name == n) = [] := by
+        rw [List.filter_eq_nil_iff]; intro x hx hxn
+        simp only [beq_iff_eq] at hxn
+        apply hnd'.1; rw [ha, ← hxn]; exact List.mem_map.mpr ⟨x, hx, rfl⟩
+      simp [List.filter_cons, ha, this]
+    · have hex : ∃ o ∈ doc, o.name = n := by
+        obtain ⟨o, ho, hn⟩ := h
+        rcases List.mem_cons.mp ho with x | x
+        · subst x; exact absurd hn ha
+        · exact ⟨o, x, hn⟩
+      simp [List.filter_cons, ha, filter_name_one doc n hnd'.2 hex]
+
+def outOf (e : JEnt) : JOut := { name := e.name, result := e.result, timed := e.started }
+
+theorem jComplete_spec : ∀ (l : List JEnt), (∀ e ∈ l, e.started = true → e.finished = true) →
+    jComplete l = some (l.map outOf)
+  | [], _ => rfl
+  | e :: l, h => by
+    have he := h e (by simp)
+    have ih := jComplete_spec l (fun x hx => h x (by simp [hx]))
+    have : jToDict e = some (outOf e) := by
+      unfold jToDict outOf
+      cases hs : e.started with
+      | false => simp
+      | true => simp [he hs]
+    simp [jComplete, this, ih]
+
+/-- `JsonReporter.complete_run` on a disciplined callback stream in which every announced task got its final report:
+    a document is produced (no exception); no task is listed twice; exactly the tasks that were looked at
+    (`get_status`) are listed; each with the result of its final report (`null` if it has none) and with timing
+    information iff `execute_task` was reported -/
+theorem json_ok {ex fwd : Bool} {noAct : Name → Bool} (evs : List Ev) (hord : repOrd ex fwd noAct evs = true)
+    (hall : ∀ n, evs.any (Ev.isExecOf n) = true → evs.any (Ev.isTerminalOf n) = true) :
+    ∃ doc, jsonOf evs.reverse = some doc ∧ (doc.map (·.name)).Nodup ∧
+      (∀ n, (∃ o ∈ doc, o.name = n) ↔ evs.any (Ev.isGetStatusOf n) = true) ∧
+      (∀ o ∈ doc, o.result = (evs.find? (Ev.isTerminalOf o.name)).bind resOf ∧
+                  o.timed = evs.any (Ev.isExecOf o.name)) := by
+  obtain ⟨l, e1, inv⟩ := jState_inv evs hord
+  have hfin : ∀ e ∈ l, e.started = true → e.finished = true := by
+    intro e he hs
+    obtain ⟨a, b, _⟩ := inv.val e he
+    rw [b]; exact hall e.name (by rw [← a]; exact hs)
+  refine ⟨l.map outOf, ?_, ?_, ?_, ?_⟩
+  · rw [jsonOf_reverse, e1]; exact jComplete_spec l hfin
+  · have : (l.map outOf).map (·.name) = l.map (·.name) := by simp [outOf, Function.comp_def]
+    rw [this]; exact inv.nodup
+  · intro n
+    rw [← inv.has n]
+    constructor
+    · rintro ⟨o, ho, hn⟩
+      obtain ⟨e, he, rfl⟩ := List.mem_map.mp ho
+      exact ⟨e, he, hn⟩
+    · rintro ⟨e, he, hn⟩
+      exact ⟨outOf e, List.mem_map.mpr ⟨e, he, rfl⟩, hn⟩
+  · intro o ho
+    obtain ⟨e, he, rfl⟩ := List.mem_map.mp ho
+    obtain ⟨a, _, c⟩ := inv.val e he
+    exact ⟨c, a⟩
+
+/-- each task that has a final report is listed exactly once, with the result string of that report -/
+theorem json_lists_final_report {ex fwd : Bool} {noAct : Name → Bool} (evs : List Ev)
+    (hord : repOrd ex fwd noAct evs = true)
+    (hall : ∀ n, evs.any (Ev.isExecOf n) = true → evs.any (Ev.isTerminalOf n) = true)
+    (pre post : List Ev) (e : Ev) (n : Name) (hsplit : evs = pre ++ e :: post) (ht : Ev.isTerminalOf n e = true) :
+    ∃ doc, jsonOf evs.reverse = some doc ∧ (doc.filter fun o => o.name == n).length = 1 ∧
+      ∀ o ∈ doc, o.name = n → o.result = resOf e := by
+  obtain ⟨doc, h1, h2, h3, h4⟩ := json_ok evs hord hall
+  -- `e` is THE final report of `n`: nothing terminal for `n` before or after it
+  have hpost : repOK ex fwd noAct e post = true := by
+    rw [hsplit] at hord; exact repOrd_at hord
+  have hgs : post.any (Ev.isGetStatusOf n) = true := by
+    cases e <;> simp [Ev.isTerminalOf] at ht <;> subst ht <;>
+      simp only [repOK, Bool.and_eq_true] at hpost <;> first
+        | exact firstFinal_gs hpost.1.1
+        | exact firstFinal_gs hpost.1
+  have hpre : ∀ x ∈ pre, Ev.isTerminalOf n x = false := by
+    -- a later final report of `n` would not be the first one
+    intro x hx
+    cases hxt : Ev.isTerminalOf n x with
+    | false => rfl
+    | true =>
+      exfalso
+      obtain ⟨p1, p2, hp⟩ := List.append_of_mem hx
+      have hord' := hord
+      rw [hsplit, hp, List.append_assoc] at hord'
+      have hx2 : repOK ex fwd noAct x (p2 ++ e :: post) = true := by
+        rw [List.cons_append] at hord'; exact repOrd_at hord'
+      have hany : (p2 ++ e :: post).any (Ev.isTerminalOf n) = true := by
+        rw [List.any_append, List.any_cons, ht]; simp
+      have hff : firstFinal n (p2 ++ e :: post) = true := by
+        cases x <;> simp [Ev.isTerminalOf] at hxt <;> subst hxt <;>
+          simp only [repOK, Bool.and_eq_true] at hx2 <;> first
+            | exact hx2.1.1
+            | exact hx2.1
+      unfold firstFinal at hff
+      rw [hany] at hff
+      simp at hff
+  have hfind : evs.find? (Ev.isTerminalOf n) = some e := by
+    rw [hsplit, List.find?_append]
+    have : pre.find? (Ev.isTerminalOf n) = none := by
+      rw [List.find?_eq_none]; intro x hx; rw [hpre x hx]; simp
+    rw [this]; simp [List.find?_cons, ht]
+  have hin : evs.any (Ev.isGetStatusOf n) = true := by
+    rw [hsplit, List.any_append, List.any_cons, hgs]; simp
+  obtain ⟨o, ho, hon⟩ := (h3 n).2 hin
+  refine ⟨doc, h1, ?_, ?_⟩
+  · exact filter_name_one doc n h2 ⟨o, ho, hon⟩
+  · intro o' ho' hn'
+    have := (h4 o' ho').1
+    rw [hn', hfind] at this
+    simpa using this
+
 end DoitModel.Report
